@@ -110,7 +110,7 @@ Definition spec_event (tbl : list entry) (s : sstate) (ev : event) : sstate :=
       {| sp_mtu := sp_mtu s; sp_nsess := sp_nsess s; sp_avail := sp_avail s;
          sp_peers := upd_peer (sp_peers s) p
                        (fun x => {| sp_ep := Some ep; sp_idx := sp_idx x; sp_key := sp_key x |}) |}
-  | ShiftHs _ | Expire _ => s
+  | ShiftHs _ | Expire _ | ReplayInit _ _ => s
   | Down | Up => s      (* the property text ties nothing to the interface state *)
   end.
 
